@@ -25,14 +25,23 @@ SHARD_TIMEOUT = {"quick": 240, "thorough": 3000}
 
 class Res(object):
     _lock = threading.Lock()
+    self_untracked = 0
 
-    def __init__(self, rid):
+    def __init__(self, rid, conn=None):
         self.rid = rid
         self.closed = 0
+        self.connref = weakref.ref(conn) if conn is not None else None
 
     def close(self):
         with Res._lock:
             self.closed += 1
+        if self.rid % 7 == 4 and self.connref is not None:
+            # a resource that takes itself off its connection's books whenever it is closed, by whomever (so that the application's own
+            # 'free' path is a single close() call)
+            conn = self.connref()
+            if conn is not None:
+                conn.tracked_resources.discard(self)
+                Res.self_untracked += 1
         if self.rid % 3 == 0:
             raise IOError("resource %d could not be released cleanly" % self.rid)     # one resource failing must not keep the others from being closed
 
@@ -71,7 +80,7 @@ def make_env(P, servertype, commtimeout, linger=30.0, pool=(2, 40), variant=None
             for _ in range(ntrack + nuntrack):
                 with world.lock:
                     world.rid += 1
-                    r = Res(world.rid)
+                    r = Res(world.rid, ctx.client)
                 ctx.track_resource(r)
                 e["tracked"].append(r)
             for _ in range(nuntrack):
@@ -88,7 +97,7 @@ def make_env(P, servertype, commtimeout, linger=30.0, pool=(2, 40), variant=None
             # a oneway call tracks a resource: it belongs to the connection the call came in on (the caller passes that connection's serial)
             with world.lock:
                 world.rid += 1
-                r = Res(world.rid)
+                r = Res(world.rid, ctx.client)
             ctx.track_resource(r)
             e = world.entry(serial)
             e["tracked"].append(r)
@@ -117,7 +126,7 @@ def make_env(P, servertype, commtimeout, linger=30.0, pool=(2, 40), variant=None
             # a resource tracked from the constructor of the per-connection instance belongs to the connection the instance is created for
             with world.lock:
                 world.rid += 1
-                self.ctor_res = Res(world.rid)
+                self.ctor_res = Res(world.rid, ctx.client)
             ctx.track_resource(self.ctor_res)
 
         def touch(self):
